@@ -35,6 +35,9 @@ type EngineCase struct {
 	DelayNs    int64      `json:"delay_ns"`
 	Deliveries []Delivery `json:"deliveries"`
 	CancelAtNs int64      `json:"cancel_at_ns,omitempty"`
+	// SendLagNs: every SendProbe takes this long; with enough probes the sender is still at work when the
+	// listening budget (timeout + sum of the send delays) runs out
+	SendLagNs int64 `json:"send_lag_ns,omitempty"`
 }
 
 type scriptRet struct {
@@ -50,6 +53,7 @@ type scriptDriver struct {
 	next     int
 	sends    []scriptRet // d.TTL = ttl
 	returned []scriptRet
+	sendLag  time.Duration // virtual duration of every SendProbe call
 	limit    time.Duration // virtual-time watchdog
 	overrun  bool
 }
@@ -68,6 +72,12 @@ func (s *scriptDriver) SendProbe(ttl uint8) error {
 		return errScriptWatchdog
 	}
 	s.sends = append(s.sends, scriptRet{time.Since(s.start), Delivery{TTL: int(ttl)}})
+	if s.sendLag > 0 {
+		// a send that takes time (full socket buffer, slow device): not under the driver's lock
+		s.mu.Unlock()
+		time.Sleep(s.sendLag)
+		s.mu.Lock()
+	}
 	return nil
 }
 
@@ -131,9 +141,9 @@ func runEngine(t *testing.T, c *EngineCase) *engineOutcome {
 			}
 		}()
 		synctest.Test(t, func(t *testing.T) {
-			drv := &scriptDriver{parallel: c.Engine == "parallel", start: time.Now(), dl: dl}
+			drv := &scriptDriver{parallel: c.Engine == "parallel", start: time.Now(), dl: dl, sendLag: time.Duration(c.SendLagNs)}
 			nn := time.Duration(c.MaxTTL - c.MinTTL + 1)
-			drv.limit = 3*(nn*time.Duration(c.TimeoutNs+c.PollNs+c.DelayNs)) + time.Second
+			drv.limit = 3*(nn*time.Duration(c.TimeoutNs+c.PollNs+c.DelayNs+c.SendLagNs)) + time.Second
 			out.drv = drv
 			p := common.TracerouteParams{MinTTL: uint8(c.MinTTL), MaxTTL: uint8(c.MaxTTL), TracerouteTimeout: time.Duration(c.TimeoutNs),
 				PollFrequency: time.Duration(c.PollNs), SendDelay: time.Duration(c.DelayNs)}
@@ -271,7 +281,8 @@ func checkEngine(t *testing.T, c *EngineCase) ([]Diff, *engineOutcome) {
 			got[r.d.Serial] = true
 		}
 		for _, d := range c.Deliveries {
-			if d.AtNs <= deadline-c.PollNs && !got[d.Serial] {
+			// the reader only starts once the first SendProbe has returned
+			if max(d.AtNs, c.SendLagNs) <= deadline-c.PollNs && !got[d.Serial] {
 				ds = append(ds, Diff{"C07", "not-received", fmt.Sprintf("delivery #%d due at %v (deadline %v, poll %v) was never taken from the driver", d.Serial, time.Duration(d.AtNs), time.Duration(deadline), time.Duration(c.PollNs))})
 				break
 			}
@@ -390,6 +401,9 @@ func genEngineCase(t *rapid.T, engine string) *EngineCase {
 	c.TimeoutNs = oneOf(t, "timeout", int64(20_000_000), 100_000_000, 1_000_000_000)
 	n := c.MaxTTL - c.MinTTL + 1
 	slots := slotTimes(n, c.DelayNs, c.TimeoutNs, c.PollNs)
+	if c.Engine == "parallel" {
+		c.SendLagNs = oneOf(t, "send_lag", int64(0), 0, 0, 1000, c.TimeoutNs/int64(n), 2*c.TimeoutNs/int64(n)+1)
+	}
 	nd := rapid.IntRange(0, min(6*n, 60)).Draw(t, "n_deliveries")
 	for i := 0; i < nd; i++ {
 		d := Delivery{Serial: i}
